@@ -319,3 +319,26 @@ func VfC02_AttrGroupSpellings() {
 	src = "define void @f() #0 {\n\tret void\n}\n" + src
 	hC02Check(src)
 }
+
+// VfC02_NamedNonStructTypes: a type definition whose body is not a struct (an
+// integer, a vector, an array or a pointer; LLVM resolves such names to the
+// body) used inside a struct type definition, with symbolic names in either
+// natural order and either textual order: the printer's ordering of the type
+// definitions yields text that is accepted again and is a fixpoint.
+//
+//vf:unwind 300
+//vf:shards 4
+func VfC02_NamedNonStructTypes() {
+	u := hLetterIn("user", 'b', 'y')
+	d := hLetterIn("def", 'b', 'y')
+	vfAssume(u != d)
+	body := [...]string{"i32", "<2 x i8>", "[2 x i16]", "i8*"}[vfChoice("body", 4)]
+	def := "%" + d + " = type " + body + "\n"
+	use := "%" + u + " = type { i64, %" + d + " }\n"
+	src := def + use
+	if vfChoice("order", 2) == 1 {
+		src = use + def
+	}
+	src += "@g = global %" + u + " zeroinitializer\n"
+	hC02Check(src)
+}
